@@ -17,7 +17,52 @@ Definition schema_table : list (string * schema) :=
    ("TrCreditPhase", s_TrCreditPhase); ("TrComputePhase", s_TrComputePhase);
    ("TrActionPhase", s_TrActionPhase); ("TrBouncePhase", s_TrBouncePhase);
    ("SplitMergeInfo", s_SplitMergeInfo); ("TransactionDescr", s_TransactionDescr);
-   ("Transaction", s_Transaction); ("SignedMsgBody", s_SignedMsgBody)].
+   ("Transaction", s_Transaction); ("SignedMsgBody", s_SignedMsgBody);
+   ("IntermediateAddress", s_IntermediateAddress);
+   ("MsgMetadata", s_MsgMetadata);
+   ("MsgEnvelope", s_MsgEnvelope);
+   ("InMsg", s_InMsg);
+   ("OutMsg", s_OutMsg);
+   ("EnqueuedMsg", s_EnqueuedMsg);
+   ("AccountState", s_AccountState);
+   ("AccountStorage", s_AccountStorage);
+   ("StorageExtraInfo", s_StorageExtraInfo);
+   ("StorageInfo", s_StorageInfo);
+   ("ExistedAccount", s_ExistedAccount);
+   ("Account", s_Account);
+   ("ShardAccount", s_ShardAccount);
+   ("DepthBalanceInfo", s_DepthBalanceInfo);
+   ("ExtBlkRef", s_ExtBlkRef);
+   ("BlkMasterInfo", s_BlkMasterInfo);
+   ("ShardIdent", s_ShardIdent);
+   ("BlockIdExt", s_BlockIdExt);
+   ("GlobalVersion", s_GlobalVersion);
+   ("ImportFees", s_ImportFees);
+   ("ShardFeeCreated", s_ShardFeeCreated);
+   ("KeyExtBlkRef", s_KeyExtBlkRef);
+   ("KeyMaxLt", s_KeyMaxLt);
+   ("ValidatorInfo", s_ValidatorInfo);
+   ("ValidatorBaseInfo", s_ValidatorBaseInfo);
+   ("Counters", s_Counters);
+   ("CreatorStats", s_CreatorStats);
+   ("ProcessedUpto", s_ProcessedUpto);
+   ("IhrPendingSince", s_IhrPendingSince);
+   ("SigPubKey", s_SigPubKey);
+   ("CryptoSignatureSimple", s_CryptoSignatureSimple);
+   ("ValidatorDescr", s_ValidatorDescr);
+   ("ValidatorTempKey", s_ValidatorTempKey);
+   ("Certificate", s_Certificate);
+   ("StoragePrices", s_StoragePrices);
+   ("MsgForwardPrices", s_MsgForwardPrices);
+   ("ParamLimits", s_ParamLimits);
+   ("BlockLimits", s_BlockLimits);
+   ("BlockCreateFees", s_BlockCreateFees);
+   ("ComplaintPricing", s_ComplaintPricing);
+   ("WorkchainFormat1", s_WorkchainFormat1);
+   ("WorkchainFormat0", s_WorkchainFormat0);
+   ("WcSplitMergeTimings", s_WcSplitMergeTimings);
+   ("PrecompiledSmc", s_PrecompiledSmc);
+   ("CatchainConfig", s_CatchainConfig)].
 
 Fixpoint lookup (nm : string) (l : list (string * schema)) : option schema :=
   match l with
